@@ -18,7 +18,13 @@ def merge3(b, o, t):
     for n, x in (('b', b), ('o', o), ('t', t)):
         fs[n] = os.path.join(d, n); open(fs[n], 'w').write(split(x) + '\n')
     r = subprocess.run(['git', 'merge-file', '-p', fs['o'], fs['b'], fs['t']], capture_output=True, text=True)
-    return r.stdout[:-1].replace('\n', ''), r.returncode != 0
+    out = r.stdout[:-1].replace('\n', '')
+    conflict = r.returncode != 0
+    if conflict:
+        for mm in re.finditer(r'<<<<<<< [^ ]*(.*?)=======(.*?)>>>>>>> \S*', out, re.S):
+            print('  kept both; OURS  :', mm.group(1).strip()[:300]); print('             THEIRS:', mm.group(2).strip()[:300])
+        out = re.sub(r'<<<<<<< [^ ]*(.*?)=======(.*?)>>>>>>> \S*', lambda mm: mm.group(1).rstrip() + ' ' + mm.group(2).strip() + ' ', out, flags=re.S)
+    return out, conflict
 def walk(b, o, t, path=''):
     if isinstance(o, dict):
         res = {k: walk(b.get(k) if isinstance(b, dict) else None, o[k], t.get(k) if isinstance(t, dict) else None, path + '/' + k) for k in o}
@@ -32,9 +38,7 @@ def walk(b, o, t, path=''):
     if isinstance(o, str) and isinstance(t, str) and isinstance(b, str):
         m, c = merge3(b, o, t)
         if c:
-            print('SUB-CONFLICT at', path)
-            for mm in re.finditer(r'<<<<<<< [^ ]*(.*?)=======(.*?)>>>>>>> \S*', m, re.S):
-                print('  OURS  :', mm.group(1).strip()[:1500]); print('  THEIRS:', mm.group(2).strip()[:1500])
+            print('SUB-CONFLICT at', path, '(both sides kept, ours first)')
         return m
     if t is None: return o
     return t if o == b else o
